@@ -455,6 +455,7 @@ outer:
 	}
 	if c.Shard == 1 {
 		eachLeg(c)
+		localLeg(c, e.fns)
 	}
 	if c.Shard == 0 {
 		var m []string
@@ -485,6 +486,13 @@ func replay(c *core.Ctx, raw json.RawMessage) {
 	var ec eachCase
 	if err := json.Unmarshal(raw, &ec); err == nil && ec.Leg == "each" {
 		replayEach(c, ec)
+		return
+	}
+	var lc localCase
+	if err := json.Unmarshal(raw, &lc); err == nil && lc.Leg == "local" {
+		if local, ok := lc.Local.(map[string]any); ok {
+			judgeLocal(c, newEnv().fns, lc.Plan, normLocal(local), true)
+		}
 		return
 	}
 	var cs caseT
